@@ -512,3 +512,131 @@ Theorem C08_hist_slot_stable :
   forall a, bfun_of (h_s C st') (eref e) a = bfun_of (h_s C st) (eref e) a.
 Proof. exact hist_slot_stable. Qed.
 Print Assumptions C08_hist_slot_stable.
+
+(** ** ALL histories, complement-edge kind (HISTc): reordering inside the BCDD manager state
+    machine of Mgr/HistoryC.v ([set_var_order_model_c] = adjacent [level_swap_c]s with the
+    complement-edge [cofactors] / [reduce]), frame of every call, "as on a freshly built diagram" *)
+From OxiVerif Require Import DD.ApplyBcdd DD.ApplyBcddProofs DD.ApplyBcddEval
+  Mgr.HistoryC Mgr.HistoryCProofs Mgr.HistoryCThms Mgr.HistoryCSpec Mgr.HistoryCExamples.
+
+(* [set_var_order] in any state the invariant holds in (so: after any history): invariant again,
+   same slots (edges incl. tags), same functions of the variables, requested relative order *)
+Theorem C08_histc_reorder_keeps :
+  forall (lt : edge -> edge -> bool) (C : Type) (cget : C -> N -> list edge -> option edge)
+         (cadd : C -> N -> list edge -> edge -> C), lossyC cget cadd ->
+  forall cempty : C, (forall k a, cget cempty k a = None) ->
+  forall (st : hstate_c C) order (st' : hstate_c C), HInvC C cget st ->
+  hop_pre_c C st (HSetVarOrder order) -> hstep_c lt C cget cadd cempty st (HSetVarOrder order) = Some st' ->
+  HInvC C cget st' /\
+  nlevels (hc_s C st') = nlevels (hc_s C st) /\
+  s_handles (hc_s C st') = s_handles (hc_s C st) /\
+  (forall x e, hget (s_handles (hc_s C st)) x = Some e ->
+     ref_ok (hc_s C st') (eref e) /\
+     forall a, cbfun_of (hc_s C st') e a = cbfun_of (hc_s C st) e a) /\
+  (forall a b, a < b < length order ->
+     nth (nth a order 0) (s_v2l (hc_s C st')) 0 < nth (nth b order 0) (s_v2l (hc_s C st')) 0).
+Proof. exact histc_reorder_keeps. Qed.
+Print Assumptions C08_histc_reorder_keeps.
+
+(* every call - operations, collection, reordering, added variables - in any state reached by any
+   history - keeps every other slot: same edge, same function *)
+Theorem C08_histc_frame :
+  forall (lt : edge -> edge -> bool) (C : Type) (cget : C -> N -> list edge -> option edge)
+         (cadd : C -> N -> list edge -> edge -> C), lossyC cget cadd ->
+  forall cempty : C, (forall k a, cget cempty k a = None) ->
+  forall (st : hstate_c C) o (st' : hstate_c C), HInvC C cget st -> hop_pre_c C st o ->
+  hstep_c lt C cget cadd cempty st o = Some st' ->
+  forall x e, hdst o <> Some x -> hget (s_handles (hc_s C st)) x = Some e ->
+  hget (s_handles (hc_s C st')) x = Some e /\
+  ref_ok (hc_s C st') (eref e) /\
+  forall a, cbfun_of (hc_s C st') e a = cbfun_of (hc_s C st) e a.
+Proof. exact histc_frame_slots. Qed.
+Print Assumptions C08_histc_frame.
+
+(* ... and every function owned by a substitution object *)
+Theorem C08_histc_frame_subst :
+  forall (lt : edge -> edge -> bool) (C : Type) (cget : C -> N -> list edge -> option edge)
+         (cadd : C -> N -> list edge -> edge -> C), lossyC cget cadd ->
+  forall cempty : C, (forall k a, cget cempty k a = None) ->
+  forall (st : hstate_c C) o (st' : hstate_c C), HInvC C cget st -> hop_pre_c C st o ->
+  hstep_c lt C cget cadd cempty st o = Some st' ->
+  forall id pairs v e, In (id, pairs) (hc_reg C st) -> In (v, e) pairs ->
+  ref_ok (hc_s C st') (eref e) /\ forall a, cbfun_of (hc_s C st') e a = cbfun_of (hc_s C st) e a.
+Proof. exact histc_frame_subst. Qed.
+Print Assumptions C08_histc_frame_subst.
+
+(* "as on a freshly built diagram": [ops1] any history (reorderings, collections, ...), [ops2] any
+   other one (e.g. the shortest that builds the operands in a fresh manager with the same order):
+   the same call returns the same function, the same complement tag, the same number of nodes *)
+Theorem C08_histc_fresh_equiv :
+  forall (lt1 lt2 : edge -> edge -> bool) (C1 C2 : Type)
+         (cget1 : C1 -> N -> list edge -> option edge) (cadd1 : C1 -> N -> list edge -> edge -> C1)
+         (cget2 : C2 -> N -> list edge -> option edge) (cadd2 : C2 -> N -> list edge -> edge -> C2),
+  lossyC cget1 cadd1 -> lossyC cget2 cadd2 ->
+  forall (ce1 : C1) (ce2 : C2), (forall k a, cget1 ce1 k a = None) -> (forall k a, cget2 ce2 k a = None) ->
+  forall n1 n2 ops1 ops2 st1 st2 o1 o2 d1 d2 F,
+  hops_pre_c lt1 C1 cget1 cadd1 ce1 (hinit_c C1 ce1 n1) ops1 ->
+  hrun_c lt1 C1 cget1 cadd1 ce1 (hinit_c C1 ce1 n1) ops1 = Some st1 ->
+  hops_pre_c lt2 C2 cget2 cadd2 ce2 (hinit_c C2 ce2 n2) ops2 ->
+  hrun_c lt2 C2 cget2 cadd2 ce2 (hinit_c C2 ce2 n2) ops2 = Some st2 ->
+  s_l2v (hc_s C1 st1) = s_l2v (hc_s C2 st2) -> s_v2l (hc_s C1 st1) = s_v2l (hc_s C2 st2) ->
+  hspec_c C1 st1 o1 d1 F -> hspec_c C2 st2 o2 d2 F ->
+  exists st1' st2' r1 r2,
+    hstep_c lt1 C1 cget1 cadd1 ce1 st1 o1 = Some st1' /\ hstep_c lt2 C2 cget2 cadd2 ce2 st2 o2 = Some st2' /\
+    cslot C1 st1' d1 = Some r1 /\ cslot C2 st2' d2 = Some r2 /\
+    (forall a, cbfun_of (hc_s C1 st1') r1 a = F a) /\
+    (forall a, cbfun_of (hc_s C2 st2') r2 a = F a) /\
+    etag r1 = etag r2 /\
+    count_reach (hc_s C1 st1') r1 = count_reach (hc_s C2 st2') r2 /\
+    wf_b (hc_s C1 st1') = true /\ wf_b (hc_s C2 st2') = true.
+Proof. exact histc_fresh_equiv. Qed.
+Print Assumptions C08_histc_fresh_equiv.
+
+(* non-vacuity: the long-lived BCDD manager of Mgr/HistoryCExamples.v (26 calls incl. a reordering
+   to [2;0;1], two collections, an added variable; unbounded cache, "f < g" always) against a
+   fresh one (reordered while empty, no cache, "f < g" never); the result is a complemented edge
+   over 3 inner nodes in both, with different node ids *)
+Theorem C08_histc_example_fresh :
+  (exists stA' stB' r1 r2,
+    hstep_c ltA eacache eac_get eac_add nil exc_stA (HBin OXor 20 5 7) = Some stA' /\
+    hstep_c ltB unit enc_get enc_add tt exc_stB (HBin OXor 6 4 5) = Some stB' /\
+    cslot eacache stA' 20 = Some r1 /\ cslot unit stB' 6 = Some r2 /\
+    (forall a, cbfun_of (hc_s eacache stA') r1 a = lift2 OXor gA5 gA7 a) /\
+    (forall a, cbfun_of (hc_s unit stB') r2 a = lift2 OXor gA5 gA7 a) /\
+    etag r1 = etag r2 /\
+    count_reach (hc_s eacache stA') r1 = count_reach (hc_s unit stB') r2 /\
+    wf_b (hc_s eacache stA') = true /\ wf_b (hc_s unit stB') = true) /\
+  exc_fresh_observed = (4%N, 4%N, true, true, false).
+Proof. exact (conj exc_fresh_equiv exc_fresh_values). Qed.
+Print Assumptions C08_histc_example_fresh.
+
+Theorem C08_histc_example_state :
+  PositiveMap.cardinal (s_nodes (hc_s eacache exc_stA)) = 16 /\
+  s_l2v (hc_s eacache exc_stA) = (2 :: 0 :: 1 :: 3 :: nil) /\
+  s_v2l (hc_s eacache exc_stA) = (1 :: 2 :: 0 :: 3 :: nil) /\
+  length (s_handles (hc_s eacache exc_stA)) = 19 /\
+  hc_next eacache exc_stA = 1%N /\
+  wf_b (hc_s eacache exc_stA) = true /\
+  existsb (fun h : N * edge => etag (snd h)) (s_handles (hc_s eacache exc_stA)) = true /\
+  existsb (fun p : positive * node => existsb etag (nchildren (snd p)))
+          (PositiveMap.elements (s_nodes (hc_s eacache exc_stA))) = true /\
+  existsb (fun p : N * cpairs => existsb (fun vr : nat * edge => etag (snd vr)) (snd p))
+          (hc_reg eacache exc_stA) = true.
+Proof. exact exc_stA_shape. Qed.
+Print Assumptions C08_histc_example_state.
+
+(* along a whole history (operations, collections, FURTHER reorderings, added variables, any cache
+   behaviour): a slot no call names as its destination keeps its edge and its function *)
+Theorem C08_histc_slot_stable :
+  forall (lt : edge -> edge -> bool) (C : Type) (cget : C -> N -> list edge -> option edge)
+         (cadd : C -> N -> list edge -> edge -> C), lossyC cget cadd ->
+  forall cempty : C, (forall k a, cget cempty k a = None) ->
+  forall ops (st st' : hstate_c C), HInvC C cget st -> hops_pre_c lt C cget cadd cempty st ops ->
+  hrun_c lt C cget cadd cempty st ops = Some st' ->
+  forall x e, (forall o, In o ops -> hdst o <> Some x) ->
+  hget (s_handles (hc_s C st)) x = Some e ->
+  hget (s_handles (hc_s C st')) x = Some e /\
+  ref_ok (hc_s C st') (eref e) /\
+  forall a, cbfun_of (hc_s C st') e a = cbfun_of (hc_s C st) e a.
+Proof. exact histc_slot_stable. Qed.
+Print Assumptions C08_histc_slot_stable.
